@@ -19,7 +19,7 @@ ASSUMPTIONS = [
 
 
 def plan(tier):
-    return {"n_random": 300 if tier == "quick" else 6000, "time_s": 600 if tier == "quick" else 1750, "shrink_evals": 40 if tier == "quick" else 300}
+    return {"n_random": 1000 if tier == "quick" else 8000, "time_s": 600 if tier == "quick" else 1750, "shrink_evals": 40 if tier == "quick" else 300}
 
 
 @st.composite
@@ -28,7 +28,7 @@ def _cases(draw, max_atoms):
     p = draw(c01.params())
     p["bond_threshold"] = 0.65 if draw(st.booleans()) is False else draw(gc.ffloat(0.4, 1.0))
     p["radii"] = draw(st.sampled_from(["covalent", "vdw", "custom"]))
-    return {"structure": s, "params": p}
+    return {"structure": s, "params": p, "crit": draw(c01.crits(2))}
 
 
 def strategy(tier):
@@ -46,6 +46,11 @@ def run_case(desc):
         out.discard = "element-without-radius"
         return out
     out.cls(*messy.labels(desc["structure"], s), "radii=" + p["radii"])
+    if desc.get("crit"):
+        thr = c01.critical_threshold(s, np.asarray(rad, float), desc["crit"], lo=0.4, hi=1.0)
+        if thr is not None:
+            p = dict(p, bond_threshold=thr)
+            out.cls("threshold-next-to-deciding-contact")
     c01.install_counters()
     c01.ACT.clear()
     ok, r = call(c01.run_sbc, s, p, rarg)
